@@ -42,21 +42,35 @@ def _login_class(req):
 # Auth, function level
 
 def run_auth_fn(cfg, cred):
-    """-> (ret class, login class, authenticated?)"""
-    from circuits.web import tools
-    from circuits.web.errors import httperror
+    """One check on a fresh request object -> (ret class, login class, authenticated?)"""
     hv = R.authorization(cfg, cred)
     req, res = make_request([('Host', 'example.com'), ('Authorization', hv)], method=cfg['m'])
-    users = R.table(cfg['enc'], cfg['tbl'])
+    return _one_check(cfg, req, res, 'same')
+
+
+def run_auth_fn2(cfg, cred, dom):
+    """Two consecutive checks on ONE request object: the first for the domain
+    the credential class is described for, the second for domain `dom`.
+    -> (decision of the first, decision of the second)"""
+    hv = R.authorization(cfg, cred)
+    req, res = make_request([('Host', 'example.com'), ('Authorization', hv)], method=cfg['m'])
+    first = _one_check(cfg, req, res, 'same')
+    return first, _one_check(cfg, req, res, dom)
+
+
+def _one_check(cfg, req, res, dom):
+    from circuits.web import tools
+    from circuits.web.errors import httperror
+    realm, users = R.domain(cfg['enc'], cfg['tbl'], dom)
     enc = R.encrypt_of(cfg['enc'])
     api = cfg['api']
     try:
         if api == 'check':
-            ret = tools.check_auth(req, res, R.REALM, users, enc)
+            ret = tools.check_auth(req, res, realm, users, enc)
         elif api == 'basic':
-            ret = tools.basic_auth(req, res, R.REALM, users, enc)
+            ret = tools.basic_auth(req, res, realm, users, enc)
         elif api == 'digest':
-            ret = tools.digest_auth(req, res, R.REALM, users)
+            ret = tools.digest_auth(req, res, realm, users)
         else:
             raise ValueError(api)
     except Exception:
